@@ -204,6 +204,10 @@ def regexp(ck):
     for f, n, how in field_writes(F, "QtLogger::RegExpFilter::m_regExp"):
         if f.id == fn.id:
             ck.ob("C16-O3", sitestr(f, n), False, "filter() modifies the expression (%s)" % how, key="RegExpFilter::filter|writes-regexp")
+        elif how != "ctor-init":
+            # the filter must match with exactly the expression it was given: no option/pattern edits after the initialiser
+            ck.ob("C16-O3", sitestr(f, n), False, "%s edits the stored expression after initialising it (%s): the filter no longer matches with the caller's expression "
+                  "(e.g. DontCaptureOption invalidates expressions with back-references)" % (strip_tmpl(f.name).split("::")[-1], how), key="RegExpFilter|edits-regexp|%s" % how)
     for ct in F.fn_all("QtLogger::RegExpFilter::RegExpFilter"):
         if ct.d.get("kind") != "ctor" or ct.d.get("copyctor") or ct.d.get("movector") or not ct.params:
             continue
